@@ -9,9 +9,16 @@
    numbers = JSON" and "every format is written for every analysis result". *)
 From Coq Require Import ZArith QArith List Bool Permutation Sorted.
 From PV Require Import Gen.ReportConst Gen.CheckConst Score.ScoreQ Report.Summary Report.Filters
-  Report.SummaryProofs Report.FiltersProofs Report.UnifiedProofs.
+  Report.SummaryProofs Report.FiltersProofs Report.UnifiedProofs Tie.ReportTie.
 Import ListNotations.
 Open Scope Z_scope.
+
+(* tie to the code: the filters and risk levels of Report/Filters.v agree with the decision tables the translator obtained by
+   running filterFunctions / filterClasses / filterClonePairs / filterCloneGroups / calculateRiskLevel / assessRiskLevel of the
+   current Go source (Gen/ReportTables.v) *)
+Theorem C16_decision_tables : report_tables_agree = true /\ report_tables_nonempty = true.
+Proof. exact report_tables_agree_ok. Qed.
+Print Assumptions C16_decision_tables.
 
 (* ---- summary = recomputation from the items, per section (all item lists, all lengths) *)
 (* complexity: total, average, max, min, risk counts, distribution. The hypothesis is McCabe >= 0
